@@ -62,11 +62,10 @@ def coq_build(log=None):
     (ok, text, failing_file_or_None)."""
     os.makedirs(BUILD, exist_ok=True)
     t0 = time.time()
-    tr = subprocess.run([PY, os.path.join(VERIF, "translator", "py2gallina.py"), REPO,
-                         os.path.join(COQ, "theories", "Gen")], capture_output=True, text=True)
-    if tr.returncode != 0:
-        return False, "translator: " + tr.stdout + tr.stderr, "translator"
-    r = subprocess.run([os.path.join(COQ, "build.sh")], capture_output=True, text=True)
+    env = dict(os.environ); env["VERIF_REPO"] = REPO
+    r = subprocess.run([os.path.join(COQ, "build.sh")], capture_output=True, text=True, env=env)
+    if r.returncode == 3:
+        return False, "translator: " + r.stdout + r.stderr, "translator"
     text = r.stdout + r.stderr
     if r.returncode != 0:
         m = re.search(r'File "\./(theories/[^"]+)"', text)
